@@ -193,6 +193,23 @@ def run() -> int:
         return None
     problems += expect("ClientMirror", "TraceClientMirror", "TraceClientMirror_C16.cfg", good, [("event old value corrupted", stale_old), ("event removed", lose_event)])
 
+    good = [t for t in (CM.write_trace(r, 30) for _ in range(6)) if any(e["obs"]["sent"] and e["obs"]["sent"][0]["els"] for e in t)]
+
+    def lose_member(t):
+        for e in t:
+            if e["obs"]["sent"] and e["obs"]["sent"][0]["els"]:
+                e["obs"]["sent"][0]["els"].pop()
+                return t
+        return None
+
+    def extra_member(t):
+        for e in t:
+            if e["obs"]["sent"]:
+                e["obs"]["sent"][0]["els"].append(["ghost", "v"])
+                return t
+        return None
+    problems += expect("ClientWrite", "TraceClientMirror", "TraceClientMirror_C06.cfg", good, [("submitted member removed", lose_member), ("member not assigned is sent", extra_member)])
+
     # ---- System
     from .checks import syscheck as S
     good = [[S.slim(e) for e in S.c01_trace(r, "quick")] for _ in range(3)]
